@@ -301,3 +301,403 @@ Theorem smart_old_stop_returns_early_refuted :
   exists s, mrun false m_init [MStartCall; MStopCall; MStopCall] = Some s /\ m_stops s = 2 /\
     m_wait s = 1 /\ m_workers s = 1.
 Proof. eexists. split; [vm_compute; reflexivity|]. cbn. auto. Qed.
+
+(* ================================================================ (c) tree-level wrappers *)
+Lemma upd_some k f : forall l l', upd k f l = Some l' ->
+  exists x y, nth_error l k = Some x /\ f x = Some y /\ length l' = length l /\
+    forall j, nth_error l' j = if Nat.eqb j k then Some y else nth_error l j.
+Proof.
+  induction k as [|k IH]; intros l l' H; destruct l as [|a r]; cbn in H; try discriminate.
+  - destruct (f a) as [y|] eqn:E; [|discriminate]. inv_some.
+    exists a, y. repeat split; auto. intros [|j]; reflexivity.
+  - destruct (upd k f r) as [r'|] eqn:E; [|discriminate]. inv_some.
+    destruct (IH _ _ E) as [x [y [H1 [H2 [H3 H4]]]]].
+    exists x, y. repeat split; auto; [cbn; congruence|]. intros [|j]; [reflexivity|]. cbn. apply H4.
+Qed.
+
+Lemma upd_ok k f : forall l x y, nth_error l k = Some x -> f x = Some y -> exists l', upd k f l = Some l'.
+Proof.
+  induction k as [|k IH]; intros l x y H1 H2; destruct l as [|a r]; cbn in H1; try discriminate.
+  - inv_some. cbn. rewrite H2. eauto.
+  - destruct (IH _ _ _ H1 H2) as [r' E]. cbn. rewrite E. eauto.
+Qed.
+
+Definition g_started (i : ist) : bool := i_running i || i_stopping i.
+
+Lemma istep_facts s l s' : i_inv s -> g_started s = true -> istep true s l = Some s' ->
+  g_started s' = true /\
+  (i_stopped_closed s = true -> i_stopped_closed s' = true) /\
+  (l <> IStartCall -> i_running s' = true -> i_running s = true) /\
+  (l = IReturn -> i_stopped_closed s' = true).
+Proof.
+  destruct s as [running stopping sc sdc pn nsp ncl nw wl wg we nst nsto nret].
+  unfold i_inv, g_started; cbn [i_panic i_exit i_running i_spawn i_loop i_got i_stopping i_close i_wait i_stop_closed i_stopped_closed].
+  intros [Hp [He [Hr [Hnr [Hns [Hs [Hnc [Hd Hsd]]]]]]]] Hg Hst.
+  subst pn. unfold istep in Hst. cbn [i_panic] in Hst.
+  destruct l; cbn [andb orb negb] in Hst;
+    destruct running, stopping, sc, sdc; cbn [andb orb negb] in *; try discriminate;
+    repeat match goal with
+    | H : true = true -> _ |- _ => specialize (H eq_refl)
+    | H : false = false -> _ |- _ => specialize (H eq_refl)
+    | H : true = false -> _ |- _ => clear H
+    | H : false = true -> _ |- _ => clear H
+    end;
+    split_ifs; inv_some;
+    cbn [i_panic i_exit i_running i_spawn i_loop i_got i_stopping i_close i_wait i_stop_closed i_stopped_closed orb];
+    repeat split; intros; try discriminate; try congruence; try lia.
+Qed.
+
+Lemma i_started_reach : ireach true i_started.
+Proof. eapply (irun_reach true [IStartCall; ISpawn] i_init); [constructor | reflexivity]. Qed.
+
+(* what the tree level knows about every object it has installed *)
+Definition ginv (g : gen) : Prop :=
+  ireach true (g_in g) /\ g_started (g_in g) = true /\ (g_post g > 0 -> i_stopped_closed (g_in g) = true).
+
+Lemma ginv_new : ginv g_new.
+Proof. split; [exact i_started_reach|]. split; [reflexivity|]. cbn. lia. Qed.
+
+Lemma gstep_ginv x l y : ginv x -> gstep x l = Some y ->
+  ginv y /\ (i_running (g_in y) = true -> i_running (g_in x) = true).
+Proof.
+  destruct x as [i pre post prog]. unfold ginv; cbn [g_in g_post]. intros [Hr [Hs Hp]] H.
+  pose proof (i_inv_reach _ Hr) as Hi.
+  destruct l; cbn in H.
+  - inv_some. cbn. auto.
+  - destruct pre; [discriminate|]. destruct (istep true i IStopCall) as [i'|] eqn:E; [|discriminate]. inv_some.
+    destruct (istep_facts _ _ _ Hi Hs E) as [F1 [F2 [F3 _]]]. cbn [g_in g_post].
+    assert (Hb : negb (i_stopping i) && negb (i_running i) = false).
+    { unfold g_started in Hs. destruct (i_running i), (i_stopping i); cbn in *; congruence. }
+    rewrite Hb. repeat split; auto; [econstructor; eauto | apply F3; discriminate].
+  - assert (HH : exists i', istep true i l = Some i' /\ l <> IStartCall /\
+                  y = mkG i' pre (match l with IReturn => S post | _ => post end) prog).
+    { destruct l; try discriminate; destruct (istep true i _) as [i'|] eqn:E; try discriminate; inv_some;
+        eexists; (split; [reflexivity|]); (split; [discriminate|reflexivity]). }
+    destruct HH as [i' [E [Hne ->]]]. cbn [g_in g_post].
+    destruct (istep_facts _ _ _ Hi Hs E) as [F1 [F2 [F3 F4]]].
+    repeat split; auto; [econstructor; eauto|].
+    destruct l; auto; intros _; apply F4; reflexivity.
+  - destruct post; [discriminate|]. inv_some. cbn. repeat split; auto; intros _; apply Hp; lia.
+  - inv_some. cbn. auto.
+  - destruct prog; [discriminate|]. inv_some. cbn. auto.
+Qed.
+
+(* the effect of one tree-level step on the list of objects *)
+Lemma tstep_shape v s l s' : tstep v s l = Some s' ->
+  t_gens s' = t_gens s \/
+  (t_gens s' = t_gens s ++ [g_new] /\ field_running (t_field s) (t_gens s) = false /\
+   t_field s' = Some (length (t_gens s))) \/
+  (exists k gl, at_gen k gl (t_gens s) = Some (t_gens s')).
+Proof.
+  destruct s as [fld gens nen nref nst nnil nret]. unfold tstep. cbn [t_gens t_field].
+  destruct l; intros H.
+  - destruct (negb lazy || field_running fld gens) eqn:E; inv_some; cbn; [auto|].
+    right; left. apply orb_false_iff in E. tauto.
+  - destruct fld; [|inv_some; cbn; auto]. destruct (at_gen _ _ _) eqn:E; [|discriminate]. inv_some. cbn. eauto.
+  - destruct (at_gen _ _ _) eqn:E; [|discriminate]. inv_some. cbn. eauto.
+  - destruct (at_gen _ _ _) eqn:E; [|discriminate]. inv_some. cbn. eauto.
+  - destruct (at_gen _ _ _) eqn:E; [|discriminate]. inv_some. cbn. eauto.
+  - inv_some. auto.
+  - destruct fld; [|inv_some; cbn; auto]. destruct (at_gen _ _ _) eqn:E; [|discriminate]. inv_some. cbn. eauto.
+  - destruct (at_gen _ _ _) eqn:E; [|discriminate]. inv_some. cbn. eauto.
+Qed.
+
+Lemma nth_error_snoc {A} (l : list A) a k x : nth_error (l ++ [a]) k = Some x ->
+  (k < length l /\ nth_error l k = Some x) \/ (k = length l /\ x = a).
+Proof.
+  intros H. destruct (Nat.lt_ge_cases k (length l)) as [Hl|Hl].
+  - left. rewrite nth_error_app1 in H by exact Hl. auto.
+  - right. rewrite nth_error_app2 in H by exact Hl.
+    destruct (k - length l) as [|d] eqn:E; cbn in H; [inv_some; split; [lia|reflexivity]|].
+    destruct d; discriminate.
+Qed.
+
+(* PRODUCT property (both variants): every object installed in the tree is a reachable state of system (a),
+   has been started, and callers past rebalancer.Stop() exist only when its stoppedChan is closed *)
+Lemma t_ginv v s : treach v s -> forall k g, nth_error (t_gens s) k = Some g -> ginv g.
+Proof.
+  induction 1 as [|s l s' Hr IH Hst]; intros k g Hn.
+  - destruct k; discriminate.
+  - destruct (tstep_shape _ _ _ _ Hst) as [E | [[E _] | [k0 [gl E]]]].
+    + rewrite E in Hn. eauto.
+    + rewrite E in Hn. apply nth_error_snoc in Hn. destruct Hn as [[_ Hn] | [_ ->]]; [eauto | exact ginv_new].
+    + apply upd_some in E. destruct E as [x [y [H1 [H2 [_ H4]]]]]. rewrite H4 in Hn.
+      destruct (Nat.eqb k k0); [inv_some; eapply gstep_ginv; eauto | eauto].
+Qed.
+
+Theorem tree_projects_to_inc v s k g : treach v s -> nth_error (t_gens s) k = Some g -> ireach true (g_in g).
+Proof. intros Hr Hn. exact (proj1 (t_ginv _ _ Hr _ _ Hn)). Qed.
+
+(* `current`: only the object the field points to can have `running` set, and it is the newest one *)
+Definition tinv (s : tst) : Prop :=
+  (forall k g, nth_error (t_gens s) k = Some g -> i_running (g_in g) = true -> t_field s = Some k) /\
+  (forall k, t_field s = Some k -> S k = length (t_gens s)).
+
+Lemma tinv_reach s : treach current s -> tinv s.
+Proof.
+  induction 1 as [|s l s' Hr IH Hst].
+  - split; [intros [|k] g H; discriminate | intros k H; discriminate].
+  - pose proof (t_ginv _ _ Hr) as HG. destruct IH as [I1 I2].
+    destruct s as [fld gens nen nref nst nnil nret]. cbn [t_gens t_field] in *.
+    (* a step that changes one object by gstep and leaves the field alone *)
+    assert (LOCAL : forall k0 gl gens' fld', at_gen k0 gl gens = Some gens' ->
+              (fld' = fld \/ (fld' = None /\ exists x, nth_error gens k0 = Some x /\ g_post x > 0 /\ fld = Some k0)) ->
+              tinv (mkT fld' gens' nen nref nst nnil nret) /\ True).
+    { intros k0 gl gens' fld' E Hf. split; [|exact I]. apply upd_some in E. destruct E as [x [y [H1 [H2 [H3 H4]]]]].
+      destruct (gstep_ginv _ _ _ (HG _ _ H1) H2) as [_ Hrun].
+      split; cbn [t_gens t_field].
+      - intros k g Hn Hk. rewrite H4 in Hn.
+        assert (Hold : fld = Some k).
+        { destruct (Nat.eqb k k0) eqn:Ek; [apply Nat.eqb_eq in Ek; subst k0; inv_some; eauto | eauto]. }
+        destruct Hf as [-> | [-> [x' [Hx' [Hp Hfk]]]]]; [exact Hold|].
+        (* the field was cleared: object k0 = k has a closed stoppedChan, so `running` is false *)
+        exfalso. rewrite Hfk in Hold. inv_some. rewrite H1 in Hx'. inv_some.
+        destruct (HG _ _ H1) as [Hr' [_ Hp']]. specialize (Hp' Hp).
+        rewrite Nat.eqb_refl in Hn. inv_some.
+        destruct (inc_fixed_stopped_is_final _ Hr' Hp') as [_ [_ Hrf]].
+        specialize (Hrun Hk). congruence.
+      - intros k Hk. rewrite H3. destruct Hf as [-> | [-> _]]; [auto | discriminate]. }
+    unfold tstep in Hst. destruct l.
+    + destruct (negb lazy || field_running fld gens) eqn:E; inv_some; [split; auto|].
+      apply orb_false_iff in E. destruct E as [_ E].
+      split; cbn [t_gens t_field].
+      * intros k g Hn Hk. apply nth_error_snoc in Hn. destruct Hn as [[_ Hn] | [-> _]]; [|reflexivity].
+        exfalso. pose proof (I1 _ _ Hn Hk) as Hf. subst fld. unfold field_running in E. rewrite Hn in E. congruence.
+      * intros k Hk. inv_some. rewrite app_length. cbn. lia.
+    + destruct fld as [k0|]; [|inv_some; split; auto].
+      destruct (at_gen _ _ _) eqn:E; [|discriminate]. inv_some. eapply LOCAL; eauto.
+    + destruct (at_gen _ _ _) eqn:E; [|discriminate]. inv_some. eapply LOCAL; eauto.
+    + destruct (at_gen _ _ _) eqn:E; [|discriminate]. inv_some. eapply LOCAL; eauto.
+    + destruct (at_gen _ _ _) eqn:E; [|discriminate]. inv_some. eapply LOCAL; [exact E|].
+      destruct ok; [|auto]. destruct fld as [k0|]; [|auto].
+      destruct (Nat.eqb k0 g) eqn:Ek; [|auto]. apply Nat.eqb_eq in Ek. subst k0. right. split; [reflexivity|].
+      pose proof E as E'. apply upd_some in E'. destruct E' as [x [y [H1 [H2 _]]]]. exists x. split; [exact H1|]. split; [|reflexivity].
+      destruct x as [i pre post prog]. cbn in H2. destruct post; [discriminate|]. cbn. lia.
+    + inv_some. split; auto.
+    + destruct fld as [k0|]; [|inv_some; split; auto].
+      destruct (at_gen _ _ _) eqn:E; [|discriminate]. inv_some. eapply LOCAL; eauto.
+    + destruct (at_gen _ _ _) eqn:E; [|discriminate]. inv_some. eapply LOCAL; eauto.
+Qed.
+
+Lemma i_active_running s : i_inv s -> i_active s > 0 -> i_running s = true.
+Proof.
+  unfold i_inv, i_active. intros [_ [_ [_ [Hnr _]]]] Ha. destruct (i_running s); [reflexivity|]. specialize (Hnr eq_refl). lia.
+Qed.
+
+(* (iii) no double close of any channel of any object, whatever the callers of the four wrappers do *)
+Theorem tree_no_panic s k g : treach current s -> nth_error (t_gens s) k = Some g -> i_panic (g_in g) = false.
+Proof. intros Hr Hn. apply inc_fixed_no_double_close. eapply tree_projects_to_inc; eauto. Qed.
+
+(* (ii) at most one goroutine per tree that may still run a rebalancing session: it belongs to the object
+   the field points to.  (Goroutines past `ir.running = false` that have only their deferred
+   ticker.Stop() / close(stoppedChan) left are NOT counted: see tree_exiting_overlap_example.) *)
+Theorem tree_at_most_one_active_worker s : treach current s ->
+  (forall k g, nth_error (t_gens s) k = Some g -> i_active (g_in g) <= 1) /\
+  (forall k g, nth_error (t_gens s) k = Some g -> i_active (g_in g) > 0 -> t_field s = Some k) /\
+  (forall k1 g1 k2 g2, nth_error (t_gens s) k1 = Some g1 -> nth_error (t_gens s) k2 = Some g2 ->
+     i_active (g_in g1) > 0 -> i_active (g_in g2) > 0 -> k1 = k2).
+Proof.
+  intros Hr. pose proof (tinv_reach _ Hr) as [I1 _].
+  assert (A : forall k g, nth_error (t_gens s) k = Some g -> i_active (g_in g) > 0 -> t_field s = Some k).
+  { intros k g Hn Ha. apply (I1 _ _ Hn). apply i_active_running; [|exact Ha].
+    apply i_inv_reach. eapply tree_projects_to_inc; eauto. }
+  split; [|split; [exact A|]].
+  - intros k g Hn. pose proof (inc_fixed_one_worker _ (tree_projects_to_inc _ _ _ _ Hr Hn)).
+    unfold i_workers, i_active in *. lia.
+  - intros k1 g1 k2 g2 H1 H2 A1 A2. pose proof (A _ _ H1 A1). pose proof (A _ _ H2 A2). congruence.
+Qed.
+
+(* every goroutine that is still on its way out is awaited by a Stop call on its own object:
+   while stopChan is closed and stoppedChan is not, the caller that closed it is blocked in <-stoppedChan *)
+Lemma i_closer_waits s : ireach true s -> i_stop_closed s = true -> i_stopped_closed s = false -> i_wait s > 0.
+Proof.
+  induction 1 as [|s l s' Hr IH Hst]; [discriminate|].
+  destruct s as [running stopping sc sdc pn nsp ncl nw wl wg we nst nsto nret].
+  cbn [i_stop_closed i_stopped_closed i_wait] in *.
+  unfold istep in Hst. cbn [i_panic] in Hst. destruct pn; [discriminate|].
+  destruct l; cbn [andb orb negb] in Hst;
+    destruct running, stopping, sc, sdc; cbn [andb orb negb] in *; try discriminate;
+    split_ifs; inv_some; cbn [i_stop_closed i_stopped_closed i_wait];
+    intros; try discriminate; try lia;
+    try (match goal with H : true = true -> false = false -> _ |- _ => specialize (H eq_refl eq_refl) end; lia).
+Qed.
+
+Theorem tree_exiting_worker_is_awaited s k g : treach current s -> nth_error (t_gens s) k = Some g ->
+  i_exit (g_in g) > 0 -> i_wait (g_in g) > 0 /\ i_stopped_closed (g_in g) = false.
+Proof.
+  intros Hr Hn He. pose proof (tree_projects_to_inc _ _ _ _ Hr Hn) as Hi. pose proof (i_inv_reach _ Hi) as Hv.
+  unfold i_inv in Hv. destruct Hv as [_ [_ [_ [_ [_ [_ [Hnc [Hd _]]]]]]]].
+  assert (D : i_stopped_closed (g_in g) = false).
+  { destruct (i_stopped_closed (g_in g)); [destruct (Hd eq_refl); lia | reflexivity]. }
+  split; [|exact D]. apply i_closer_waits; auto.
+  destruct (i_stop_closed (g_in g)); [reflexivity | destruct (Hnc eq_refl); lia].
+Qed.
+
+(* (i) "a stop that returns leaves no worker".  A StopIncrementalRebalancing call that read object g from the
+   field (line 191) and returns (208 / 217): at that moment object g has no goroutine at all (stoppedChan is
+   closed), no object installed at or before g has a goroutine that may still run a session, and the only
+   object that can have one was installed by an EnableIncrementalRebalancing AFTER this call read the field
+   (index > g) and is the one the field points to now. *)
+Theorem tree_stop_return_means_stopped s g ok s' :
+  treach current s -> tstep current s (TStopFinish g ok) = Some s' ->
+  (exists gs, nth_error (t_gens s') g = Some gs /\ i_stopped_closed (g_in gs) = true /\
+              i_workers (g_in gs) = 0 /\ i_spawn (g_in gs) = 0) /\
+  (forall k gs, nth_error (t_gens s') k = Some gs -> k <= g -> i_active (g_in gs) = 0) /\
+  (forall k gs, nth_error (t_gens s') k = Some gs -> i_active (g_in gs) > 0 -> g < k /\ t_field s' = Some k).
+Proof.
+  intros Hr Hst. assert (Hr' : treach current s') by (econstructor; eauto).
+  assert (G : exists gs, nth_error (t_gens s') g = Some gs /\ i_stopped_closed (g_in gs) = true /\
+              i_workers (g_in gs) = 0 /\ i_spawn (g_in gs) = 0).
+  { destruct s as [fld gens nen nref nst nnil nret]. unfold tstep in Hst.
+    destruct (at_gen g GFinish gens) as [gens'|] eqn:E; [|discriminate]. inv_some. cbn [t_gens].
+    apply upd_some in E. destruct E as [x [y [H1 [H2 [_ H4]]]]].
+    exists y. split; [rewrite H4, Nat.eqb_refl; reflexivity|].
+    destruct (t_ginv _ _ Hr _ _ H1) as [Hi [_ Hp]]. cbn [t_gens] in H1.
+    destruct x as [i pre post prog]. cbn in H2. destruct post as [|p]; [discriminate|]. inv_some. cbn [g_in g_post] in *.
+    assert (Hd : i_stopped_closed i = true) by (apply Hp; lia).
+    destruct (inc_fixed_stopped_is_final _ Hi Hd) as [A [B _]]. auto. }
+  assert (T : forall k gs, nth_error (t_gens s') k = Some gs -> i_active (g_in gs) > 0 -> g < k /\ t_field s' = Some k).
+  { intros k gs Hn Ha. destruct (tree_at_most_one_active_worker _ Hr') as [_ [A _]].
+    pose proof (A _ _ Hn Ha) as Hf. split; [|exact Hf].
+    destruct (tinv_reach _ Hr') as [_ I2]. specialize (I2 _ Hf).
+    destruct G as [gs0 [Hg [_ [Hw Hs]]]].
+    assert (g < length (t_gens s')) by (apply nth_error_Some; congruence).
+    assert (k <> g). { intros ->. rewrite Hg in Hn. inv_some. unfold i_active, i_workers in *. lia. }
+    lia. }
+  split; [exact G|]. split; [|exact T].
+  intros k gs Hn Hk. destruct (i_active (g_in gs)) eqn:Ea; [reflexivity|].
+  destruct (T _ _ Hn); lia.
+Qed.
+
+(* ... and a call that returns at line 195 because it found the field nil: at that moment no object ever
+   installed in this tree has a goroutine that may still run a session *)
+Theorem tree_stop_nil_return_no_active_worker s s' :
+  treach current s -> tstep current s TStopRead = Some s' -> t_ret_nil s' = S (t_ret_nil s) ->
+  forall k gs, nth_error (t_gens s') k = Some gs -> i_active (g_in gs) = 0.
+Proof.
+  intros Hr Hst Hn k gs Hk. assert (Hr' : treach current s') by (econstructor; eauto).
+  assert (F : t_field s' = None).
+  { destruct s as [fld gens nen nref nst nnil nret]. unfold tstep in Hst. destruct fld.
+    - destruct (at_gen _ _ _); [|discriminate]. inv_some. cbn in Hn. lia.
+    - inv_some. reflexivity. }
+  destruct (i_active (g_in gs)) eqn:Ea; [reflexivity|].
+  destruct (tree_at_most_one_active_worker _ Hr') as [_ [A _]].
+  assert (Hf : t_field s' = Some k) by (apply (A _ _ Hk); lia). congruence.
+Qed.
+
+(* (iv) progress: a StopIncrementalRebalancing call is never stuck.  Before rebalancer.Stop() and after it the
+   call itself can move; while it is blocked in <-stoppedChan some step of the system itself (not a new API
+   call) is enabled on that object and brings the release closer (system (a)'s measure).  That the enabled
+   steps are taken is scheduler fairness, not modelled. *)
+Theorem tree_stop_progress s g gs : treach current s -> nth_error (t_gens s) g = Some gs ->
+  (g_pre gs > 0 -> exists s', tstep current s (TStopInner g) = Some s') /\
+  (g_post gs > 0 -> exists s', tstep current s (TStopFinish g true) = Some s') /\
+  (i_wait (g_in gs) > 0 -> i_stopped_closed (g_in gs) = false ->
+   exists l s' gs', i_internal l = true /\ tstep current s (TInner g l) = Some s' /\
+     nth_error (t_gens s') g = Some gs' /\ i_measure (g_in gs') < i_measure (g_in gs)).
+Proof.
+  intros Hr Hn. pose proof (tree_projects_to_inc _ _ _ _ Hr Hn) as Hi.
+  destruct s as [fld gens nen nref nst nnil nret]. cbn [t_gens] in Hn. unfold tstep.
+  split; [|split].
+  - intros Hp. pose proof (inc_fixed_no_double_close _ Hi) as Hpn.
+    assert (E : exists y, gstep gs GStopInner = Some y).
+    { destruct gs as [i pre post prog]. cbn in *. destruct pre; [lia|].
+      destruct i as [running stopping sc sdc pn nsp ncl nw wl wg we nst' nsto nret']. cbn in Hpn. subst pn.
+      unfold istep. cbn. destruct stopping; [eauto|]. destruct running; cbn; eauto. }
+    destruct E as [y E]. destruct (upd_ok g (fun x => gstep x GStopInner) _ _ _ Hn E) as [l' E']. unfold at_gen. rewrite E'. eauto.
+  - intros Hp. assert (E : exists y, gstep gs GFinish = Some y).
+    { destruct gs as [i pre post prog]. cbn in *. destruct post; [lia|]. eauto. }
+    destruct E as [y E]. destruct (upd_ok g (fun x => gstep x GFinish) _ _ _ Hn E) as [l' E']. unfold at_gen. rewrite E'. eauto.
+  - intros Hw Hd. destruct (inc_fixed_progress _ Hi Hw Hd) as [l [i' [Hl [Hs Hm]]]].
+    assert (E : gstep gs (GInner l) = Some (mkG i' (g_pre gs) (g_post gs) (g_prog gs))).
+    { destruct gs as [i pre post prog]. cbn [g_in g_pre g_post g_prog] in *.
+      destruct l; try discriminate; cbn; rewrite Hs; reflexivity. }
+    destruct (upd_ok g (fun x => gstep x (GInner l)) _ _ _ Hn E) as [l' E'].
+    exists l. eexists. exists (mkG i' (g_pre gs) (g_post gs) (g_prog gs)).
+    split; [exact Hl|]. unfold at_gen. rewrite E'. split; [reflexivity|]. cbn [t_gens g_in].
+    split; [|exact Hm]. apply upd_some in E'. destruct E' as [x [y [H1 [H2 [_ H4]]]]].
+    rewrite H4, Nat.eqb_refl. rewrite Hn in H1. inv_some. congruence.
+Qed.
+
+Lemma trun_reach v ls : forall s s', treach v s -> trun v s ls = Some s' -> treach v s'.
+Proof.
+  induction ls as [|l ls IH]; intros s s' Hr H; cbn in H.
+  - inversion H; subst; exact Hr.
+  - destruct (tstep v s l) eqn:E; [|discriminate]. eapply IH; [|exact H]. econstructor; eauto.
+Qed.
+
+(* ---------------------------------------------------------------- (c) `early_detach`: refuted *)
+(* Enable; a first Stop reads the object and sets the field to nil; a second Stop finds nil and RETURNS
+   (t_ret_nil = 1) while the goroutine of object 0 is in its select loop and nobody has even asked it to stop *)
+Definition trace_early_detach : list tlabel := [TEnable true; TStopRead; TStopRead].
+
+Theorem tree_early_detach_refuted :
+  exists s gs, trun early_detach t_init trace_early_detach = Some s /\
+    t_stops s = 2 /\ t_ret_nil s = 1 /\ nth_error (t_gens s) 0 = Some gs /\
+    i_loop (g_in gs) = 1 /\ i_stop_closed (g_in gs) = false /\ i_stopped_closed (g_in gs) = false /\ g_pre gs = 1.
+Proof. eexists. eexists. split; [vm_compute; reflexivity|]. cbn. repeat split; reflexivity. Qed.
+
+(* the same three calls in the code as it is: the second Stop holds the object too, nobody has returned *)
+Theorem tree_current_same_schedule_ok :
+  exists s gs, trun current t_init trace_early_detach = Some s /\
+    t_ret_nil s = 0 /\ t_ret s = 0 /\ nth_error (t_gens s) 0 = Some gs /\ g_pre gs = 2 /\ t_field s = Some 0.
+Proof. eexists. eexists. split; [vm_compute; reflexivity|]. cbn. repeat split; reflexivity. Qed.
+
+(* `early_detach` also lets Enable start a second session-running goroutine on the same tree *)
+Theorem tree_early_detach_two_workers_refuted :
+  exists s g0 g1, trun early_detach t_init [TEnable true; TStopRead; TEnable true] = Some s /\
+    nth_error (t_gens s) 0 = Some g0 /\ nth_error (t_gens s) 1 = Some g1 /\
+    i_active (g_in g0) = 1 /\ i_active (g_in g1) = 1.
+Proof. eexists. eexists. eexists. split; [vm_compute; reflexivity|]. cbn. repeat split; reflexivity. Qed.
+
+Theorem tree_early_detach_reachable_violation :
+  exists s gs, treach early_detach s /\ t_ret_nil s > 0 /\ nth_error (t_gens s) 0 = Some gs /\ i_active (g_in gs) > 0.
+Proof.
+  destruct tree_early_detach_refuted as [s [gs [H [_ [Hn [Hg [Hl _]]]]]]]. exists s, gs.
+  split; [eapply trun_reach; [constructor | exact H]|]. unfold i_active. repeat split; try lia. exact Hg.
+Qed.
+
+(* ---------------------------------------------------------------- (c) `current`: examples (non-vacuity) *)
+(* two overlapping stop requests: both hold object 0, both wait in <-stoppedChan (i_wait = 2 after the
+   close), both return after the goroutine has ended; the first clears the field *)
+Definition trace_two_stops_wait : list tlabel :=
+  [TEnable true; TStopRead; TStopRead; TStopInner 0; TStopInner 0; TInner 0 IClose].
+Definition trace_two_stops_finish : list tlabel :=
+  [TInner 0 ITakeStop; TInner 0 IClearRunning; TInner 0 ICloseStopped; TInner 0 IReturn; TInner 0 IReturn;
+   TStopFinish 0 true; TStopFinish 0 true].
+
+Example tree_two_overlapping_stops :
+  exists s1 g1 s2 g2,
+    trun current t_init trace_two_stops_wait = Some s1 /\ nth_error (t_gens s1) 0 = Some g1 /\
+    i_wait (g_in g1) = 2 /\ i_loop (g_in g1) = 1 /\ t_ret s1 = 0 /\ tstep current s1 (TInner 0 IReturn) = None /\
+    trun current s1 trace_two_stops_finish = Some s2 /\ nth_error (t_gens s2) 0 = Some g2 /\
+    t_ret s2 = 2 /\ t_ret_nil s2 = 0 /\ t_field s2 = None /\ i_workers (g_in g2) = 0 /\ i_stopped_closed (g_in g2) = true.
+Proof.
+  eexists. eexists. eexists. eexists. split; [vm_compute; reflexivity|]. cbn.
+  repeat split; try reflexivity.
+Qed.
+
+(* OBSERVATION (the strict reading of "one goroutine per tree" does not hold): Enable tests isRunning(), which
+   is false as soon as the goroutine has executed `ir.running = false` (line 312), before its deferred
+   ticker.Stop() and close(stoppedChan) have run.  So while a first Stop is still blocked on object 0, Enable
+   can install object 1 and start its goroutine, and a Stop on object 1 can return, all before the goroutine of
+   object 0 has finished returning.  That goroutine touches nothing of the tree any more and is awaited by its
+   own Stop (tree_exiting_worker_is_awaited). *)
+Definition trace_exiting_overlap : list tlabel :=
+  [TEnable true; TStopRead; TStopInner 0; TInner 0 IClose; TInner 0 ITakeStop; TInner 0 IClearRunning;
+   TEnable true].
+Definition trace_exiting_overlap_stop : list tlabel :=
+  [TStopRead; TStopInner 1; TInner 1 IClose; TInner 1 ITakeStop; TInner 1 IClearRunning; TInner 1 ICloseStopped;
+   TInner 1 IReturn; TStopFinish 1 true].
+
+Example tree_exiting_overlap_example :
+  exists s1 a0 a1 s2 b0,
+    trun current t_init trace_exiting_overlap = Some s1 /\
+    nth_error (t_gens s1) 0 = Some a0 /\ nth_error (t_gens s1) 1 = Some a1 /\
+    i_exit (g_in a0) = 1 /\ i_wait (g_in a0) = 1 /\ i_active (g_in a0) = 0 /\ i_active (g_in a1) = 1 /\
+    trun current s1 trace_exiting_overlap_stop = Some s2 /\ t_ret s2 = 1 /\ t_field s2 = None /\
+    nth_error (t_gens s2) 0 = Some b0 /\ i_exit (g_in b0) = 1 /\ i_wait (g_in b0) = 1.
+Proof.
+  eexists. eexists. eexists. eexists. eexists. split; [vm_compute; reflexivity|]. cbn.
+  repeat split; reflexivity.
+Qed.
